@@ -51,8 +51,9 @@ void gen_interval(Src& s, double& a, double& b, double& ratio)
 			break;
 		}
 		case 1:
-		{	// far from the origin
-			double hw = std::pow(10.0, s.uniform(-3, 3)), mid = s.sign() * hw * std::pow(10.0, s.uniform(0, 3));
+		{	// far from the origin: |mid|/half-width up to 1e3, sometimes up to 1e6 (eps*|mid| stays far below the distance of the outermost
+			// node from the end of the interval, ~half-width/n^2, for every n generated)
+			double hw = std::pow(10.0, s.uniform(-3, 3)), mid = s.sign() * hw * std::pow(10.0, s.chance(0.3) ? s.uniform(3, 6) : s.uniform(0, 3));
 			a = mid - hw;
 			b = mid + hw;
 			break;
@@ -115,12 +116,30 @@ VCLAUSE(rule, 20, 12000, 100000, "n is odd, or n > 64, or the interval is shifte
 		VCHECK(dir * w > 0, "weight " << i << " = " << w << " has the wrong sign for limits [" << A << "," << B << "]");
 		// symmetry: node i and n-1-i mirror about the midpoint, weights equal
 		double xm = rw[(size_t) (n - 1 - i)][0], wm = rw[(size_t) (n - 1 - i)][1];
-		VCLOSE(c, "node_symmetry", (double) (((long double) x - mid) / hw), (double) (-((long double) xm - mid) / hw), 4 * EPS * (1 + ratio), "nodes " << i << " and " << n - 1 - i << " not symmetric about the midpoint");
-		VCHECK(w == wm, "weights " << i << " and " << n - 1 - i << " differ: " << w << " vs " << wm);
+		// symmetric to the accuracy the nodes and weights themselves have (a rule whose roots are all found independently is as good);
+		// exact mirror images - what the present construction gives - are counted
+		VCLOSE(c, "node_symmetry", (double) (((long double) x - mid) / hw), (double) (-((long double) xm - mid) / hw), node_tol, "nodes " << i << " and " << n - 1 - i << " not symmetric about the midpoint");
+		VCLOSE(c, "weight_symmetry", w, wm, 1024 * EPS * std::fabs(B - A) / n + 64 * EPS * std::fabs(w), "weights " << i << " and " << n - 1 - i << " differ");
+		if(w == wm)
+			c.cls("weights_mirror_exactly");
 		// independent reference
 		long double t = ((long double) x - mid) / hw;
 		int ri		  = rev ? n - 1 - i : i;
 		VCLOSE(c, "node_vs_reference", (double) t, (double) zr[(size_t) ri], node_tol, "node " << i << " (mapped to [-1,1]) vs long double Newton reference");
+		// (tolerance: the Newton iteration stops at steps of 1e-14 and d(log w)/dz ~ n^2 at the outermost nodes, so single weights of large rules
+		// are off by up to ~70 eps |b-a| (measured at n=1079); the bound is half of what the sum of all weights is allowed)
+		// every weight against w_i = 2 / ((1-z_i^2) P_n'(z_i)^2) at the reference node (a compensating pair of wrong weights leaves the sum alone)
+		{
+			long double z = zr[(size_t) ri], p1 = 1, p2 = 0;
+			for(int j = 0; j < n; j++)
+			{
+				long double p3 = p2;
+				p2			   = p1;
+				p1			   = ((2 * j + 1) * z * p2 - j * p3) / (j + 1);
+			}
+			long double pp = n * (z * p1 - p2) / (z * z - 1), wref = 2 / ((1 - z * z) * pp * pp) * hw * (rev ? -1 : 1);
+			VCLOSE(c, "weight_vs_reference", w, (double) wref, 512 * EPS * std::fabs(B - A) + 256 * EPS * std::fabs((double) wref), "weight " << i << " vs 2/((1-z^2) P_n'(z)^2) in long double");
+		}
 		wsum += w;
 	}
 	// the weights carry the error of the last Newton step (stopping threshold 1e-14 ~ 45 eps): measured 10..105 eps*|b-a| for n=2..4000,
